@@ -8,6 +8,7 @@ A case: {'snap_c': [line…], 'snap_s': [line…], 'pre': [op…], 'ops': [op…
   lines travel the GETINFO circuit-status / stream-status path.
   op = ['circ', line, quit] | ['strm', line, quit, ans] | ['acl', lid] | ['asl', lid]
      | ['lc'|'uc', coid, lid] | ['ls'|'us', soid, lid] | ['wb'|'wc'|'cc', coid] | ['cs', soid]
+     | ['wbr'|'wcr'|'ccr', coid] | ['csr', soid]   (the request, and the same request again from inside its own callback)
      | ['ack', ok] | ['att', n|None] | ['ans', tok, ans]
   ans = 'n' | 'd' | 'c<coid>' | 'x' | 'r' | 'later' | None
 After every op: outputs (notifications, Deferreds created/fired, errors, attacher consultations), the command
@@ -158,11 +159,18 @@ class Impl:
                 return i
         return None
 
-    def watch(self, d):
+    def watch(self, d, nested=None):
         did = self.next_did
         self.next_did += 1
         self.log.append(['d', did])
         d.addCallbacks(lambda r: self.log.append(['f', did, 1]) and None, lambda f: self.log.append(['f', did, 0]) and None)
+        if nested is not None:
+            def again(_):
+                try:
+                    self.watch(nested())
+                except Exception as e:
+                    self.log.append(['e', err_kind('%s: %s' % (type(e).__name__, e))])
+            d.addBoth(again)
 
     def answer_value(self, ans):
         from txtorcon import TorState
@@ -211,6 +219,11 @@ class Impl:
                 self.watch(self.cobjs[op[1]].close())
             elif k == 'cs':
                 self.watch(self.sobjs[op[1]].close())
+            elif k in ('ccr', 'csr', 'wbr', 'wcr'):
+                # the same request made again from inside the callback of this one (at the moment it completes)
+                obj = self.sobjs[op[1]] if k == 'csr' else self.cobjs[op[1]]
+                again = {'ccr': obj.close, 'csr': obj.close, 'wbr': getattr(obj, 'when_built', None), 'wcr': getattr(obj, 'when_closed', None)}[k]
+                self.watch(again(), nested=again)
             elif k == 'ack':
                 self.st.release(None, None if op[1] else '552 No such thing\r\n')
             elif k == 'att' and op[1] == 0:
@@ -414,6 +427,8 @@ def op_line(op):
         return 'strm %s %s %s' % (q(op[2]), ans, ' '.join(hexs(a) for a in op[1].split()))
     if k in ('acl', 'asl', 'wb', 'wc', 'cc', 'cs'):
         return '%s %d' % (k, op[1])
+    if k in ('ccr', 'csr', 'wbr', 'wcr'):
+        raise ValueError('re-entrant requests are expanded (tsprop.expand_case) before they reach the model')
     if k in ('lc', 'uc', 'ls', 'us'):
         return '%s %d %d' % (k, op[1], op[2])
     if k == 'ack':
